@@ -63,15 +63,14 @@ Proof.
   intros g H [max Hm]. rewrite <- (H max Hm). now apply bytes_refines_reference.
 Qed.
 
-(* SpooledStringIO, under the guard of the open finding *)
+(* SpooledStringIO *)
 Theorem transfer_string chunk ops runs r :
   1 <= chunk -> Forall op_valid ops ->
-  writes_odd_break ops = false \/ existsb is_line_op ops = false ->
   ref_run KString rf_empty ops = Some r ->
   agree_runs (fun max => ss_run (ss_init max chunk) ops) runs = true ->
   Forall (fun g : run_group => spooled_member g -> snd g = r) runs.
 Proof.
-  intros Ch V G R A. apply agree_runs_member in A. eapply Forall_impl; [|exact A].
+  intros Ch V R A. apply agree_runs_member in A. eapply Forall_impl; [|exact A].
   intros g H [max Hm]. rewrite <- (H max Hm). now apply string_refines_reference.
 Qed.
 
